@@ -19,6 +19,15 @@ Failed(r) ==
        \cup Clause("decrypts_back", r.decb = r.plain /\ r.deca = r.plain)
       [] r.op = "sig" -> Clause("verify_iff_genuine", r.verified = r.genuine) \cup Clause("signature_is_64_bytes", r.siglen = 64)
       [] r.op = "mnemonic_rule" -> Clause("mnemonic_validity_follows_the_seed_rule", r.libvalid = r.rule)
+      [] r.op = "derive" ->
+            \* key derivation is a function of (helper, mnemonic, salt) over the whole history of calls: every result equals the
+            \* labelled ground truth (PBKDF2-HMAC-SHA512 is not specified in TLA+, see DESIGN section 2), and two calls with the same
+            \* arguments agree while the seeds of one mnemonic under different salts differ
+            Clause("derivation_is_a_function_of_mnemonic_and_salt",
+                   /\ \A i \in 1..Len(r.events) : r.events[i].out = r.events[i].truth
+                   /\ \A i, j \in 1..Len(r.events) : (r.events[i].fn = r.events[j].fn /\ r.events[i].salt = r.events[j].salt) => r.events[i].out = r.events[j].out
+                   /\ \A i, j \in 1..Len(r.events) : (r.events[i].fn = "seed" /\ r.events[j].fn = "seed" /\ r.events[i].salt # r.events[j].salt)
+                                                            => r.events[i].out # r.events[j].out)
       [] r.op = "mnemonic" -> Clause("mnemonic_24_words_from_list", r.n = 24 /\ r.inlist = 1)
                               \cup Clause("generated_mnemonic_valid", r.valid = 1)
                               \cup Clause("derivation_deterministic", r.det = 1)
